@@ -2,6 +2,7 @@
 package c14
 
 import (
+	"bytes"
 	"errors"
 	"fmt"
 	"strings"
@@ -20,9 +21,11 @@ type Case struct {
 	At      int    `json:"at"`    // 1-based index of the failing tick call / Write call
 }
 
-func (c *Case) ID() string { return fmt.Sprintf("%s[%s] fault=%s@%d", c.Wrapper, c.Nodes, c.Fault, c.At) }
+func (c *Case) ID() string {
+	return fmt.Sprintf("%s[%s] fault=%s@%d", c.Wrapper, c.Nodes, c.Fault, c.At)
+}
 
-var wrappers = []string{"flat", "for", "if", "with", "autoescape", "ifchanged", "spaceless", "filter", "filter-length", "for-filter-length", "include", "include-lazy", "macro", "extends", "for-include", "ssi-parsed"}
+var wrappers = []string{"flat", "for", "if", "with", "autoescape", "ifchanged", "spaceless", "filter", "filter-length", "for-filter-length", "include", "include-lazy", "macro", "extends", "for-include", "ssi-parsed", "for-empty", "for-reversed", "ifequal", "block", "import-macro", "if-elif"}
 
 // build returns the file set, the name of the entry file and the expected fault-free output.
 func build(wrapper, nodes string) (files map[string]string, expected string, ticks int) {
@@ -56,6 +59,25 @@ func build(wrapper, nodes string) (files map[string]string, expected string, tic
 	case "for":
 		files["/main"] = "{% for i in two %}" + b + "{% endfor %}"
 		expected = render() + render()
+	case "for-empty":
+		files["/main"] = "{% for i in two %}" + b + "{% empty %}EMPTY{% endfor %}"
+		expected = render() + render()
+	case "for-reversed":
+		files["/main"] = "{% for i in two reversed %}" + b + "{% empty %}EMPTY{% endfor %}."
+		expected = render() + render() + "."
+	case "ifequal":
+		files["/main"] = "{% ifequal 1 1 %}" + b + "{% else %}no{% endifequal %}"
+		expected = render()
+	case "if-elif":
+		files["/main"] = "{% if not yes %}no{% elif yes %}" + b + "{% else %}no{% endif %}"
+		expected = render()
+	case "block":
+		files["/main"] = "[{% block x %}" + b + "{% endblock %}]"
+		expected = "[" + render() + "]"
+	case "import-macro":
+		files["/lib"] = "{% macro m() export %}" + b + "{% endmacro %}"
+		files["/main"] = "{% import \"lib\" m %}X{{ m() }}Y"
+		expected = "X" + render() + "Y"
 	case "if":
 		files["/main"] = "{% if yes %}" + b + "{% else %}no{% endif %}"
 		expected = render()
@@ -135,6 +157,17 @@ func (w *faultWriter) Write(p []byte) (int, error) {
 	return len(p), nil
 }
 
+// stringWriter is a caller's writer that also offers WriteString (as pongo2's own TemplateWriter does)
+type stringWriter struct {
+	b     strings.Builder
+	calls int
+}
+
+func (w *stringWriter) Write(p []byte) (int, error)       { w.calls++; return w.b.Write(p) }
+func (w *stringWriter) WriteString(s string) (int, error) { w.calls++; return w.b.WriteString(s) }
+
+func key0(c *Case, s string) string { return s + ":" + c.Wrapper + ":" + c.Fault }
+
 func (c *Case) Exec(t *eng.T) {
 	files, expected, ticks := build(c.Wrapper, c.Nodes)
 	// every entry point gets a fresh compile (state across renders of one compiled template is C04's business)
@@ -202,6 +235,35 @@ func (c *Case) Exec(t *eng.T) {
 		w := mkw()
 		err := fresh().ExecuteWriterUnbuffered(mkctx(), w)
 		rs = append(rs, res{"ExecuteWriterUnbuffered", string(w.buf), err, w})
+	}
+	// ExecuteWriter on writers pongo2 could be tempted to treat specially: the caller's own *bytes.Buffer (already
+	// holding data) and a caller writer that offers WriteString
+	const callerData = "CALLER-DATA;"
+	{
+		var bb bytes.Buffer
+		bb.WriteString(callerData)
+		err := fresh().ExecuteWriter(mkctx(), &bb)
+		got := bb.String()
+		switch {
+		case wantFail && err == nil:
+			t.Fail(key0(c, "error-lost"), "%s: ExecuteWriter(*bytes.Buffer) returns no error although execution fails", c.ID())
+		case wantFail && got != callerData:
+			t.Fail(key0(c, "partial-write:bytes.Buffer"), "%s: ExecuteWriter changed the caller's *bytes.Buffer to %q although execution failed (it held %q)", c.ID(), got, callerData)
+		case !wantFail && (err != nil || got != callerData+expected):
+			t.Fail(key0(c, "wrong-output:bytes.Buffer"), "%s: ExecuteWriter(*bytes.Buffer holding %q) gave %q, %v; want %q", c.ID(), callerData, got, err, callerData+expected)
+		}
+	}
+	{
+		sw := &stringWriter{}
+		err := fresh().ExecuteWriter(mkctx(), sw)
+		switch {
+		case wantFail && err == nil:
+			t.Fail(key0(c, "error-lost"), "%s: ExecuteWriter(writer with WriteString) returns no error although execution fails", c.ID())
+		case wantFail && (sw.calls != 0 || sw.b.Len() != 0):
+			t.Fail(key0(c, "partial-write:stringwriter"), "%s: ExecuteWriter wrote %q (%d calls) to a caller writer offering WriteString although execution failed", c.ID(), sw.b.String(), sw.calls)
+		case !wantFail && (err != nil || sw.b.String() != expected):
+			t.Fail(key0(c, "wrong-output:stringwriter"), "%s: ExecuteWriter(writer with WriteString) gave %q, %v; want %q", c.ID(), sw.b.String(), err, expected)
+		}
 	}
 	t.Outcome(fmt.Sprintf("%v|%q|%q|%q|%q", wantFail, rs[0].out, rs[1].out, rs[2].out, rs[3].out))
 	// the bytes handed out by ExecuteBytes belong to the caller: the executions that followed must not have changed them
